@@ -29,6 +29,9 @@ LEVEL_TEXT += " " + '(BLANK) character-strings the RFCs allow to be empty are pa
 # seventh/eighth-round addition
 TECHNIQUE += "; " + "must-pass-through from the writers of the raw response code to the parser's success return with stores to the reported code as barriers (R-C04-RCODEFINAL)"
 LEVEL_TEXT += " " + "(RCODEFINAL, eighth round) the response code a parsed message reports is settled from the complete 12-bit wire value on every path to the parser's success return; an unassigned value maps to SERVFAIL."
+# ninth-round addition
+TECHNIQUE += "; " + "exact evaluation of the name decoder's pointer and label-type expressions over all 256 octet values (R-C04-PTRBITS)"
+LEVEL_TEXT += " " + '(PTRBITS, ninth round) a compression pointer is read as 6 + 8 offset bits and the label types 11 / 10,01 / 00 are told apart exactly as RFC 1035 4.1.4 lays them out.'
 LEVEL_NOTE = "trusts clang CFG + extractor and the frozen table tables/iana.json (written from the RFCs); differential agreement on all messages needs execution"
 DESIGN_REF = "DESIGN.md §6/C04"
 EXPLANATION = LEVEL_TEXT
